@@ -21,6 +21,7 @@ class SpecView:
         self._allowed = {}
         self._excl = {}
         self._cok = {}
+        self._first = {}
         self._canon = {}
 
     # -- content -----------------------------------------------------------------
@@ -50,6 +51,37 @@ class SpecView:
             if t not in self.letter:
                 return False
         return self.content_re(tname).fullmatch(self.word(child_types)) is not None
+
+    def first_types(self, tname):
+        """Types that can be the first child (from the content expression alone)."""
+        if tname not in self._first:
+            from . import cexpr as cx
+
+            def pref(e):
+                k = e[0]
+                if k == "eps":
+                    return ("eps",)
+                if k == "name":
+                    return ("opt", e)
+                if k == "alt":
+                    return ("alt", [pref(x) for x in e[1]])
+                if k == "seq":
+                    return ("alt", [("seq", list(e[1][:i]) + [pref(x)]) if i else pref(x) for i, x in enumerate(e[1])])
+                if k in ("star", "plus"):
+                    return ("seq", [("star", e[1]), pref(e[1])])
+                if k == "opt":
+                    return pref(e[1])
+                lo, hi = e[2], e[3]
+                if hi == -1:
+                    return ("seq", [("star", e[1]), pref(e[1])])
+                hi = max(hi, lo)
+                return ("eps",) if hi == 0 else ("seq", [("range", e[1], 0, hi - 1), pref(e[1])])
+            rx = re.compile(cx.to_pyre(pref(self.ast(tname)), self.letter))
+            self._first[tname] = {u for u in self.nodes if rx.fullmatch(self.letter[u])}
+        return self._first[tname]
+
+    def compatible(self, a, b):
+        return a == b or bool(self.first_types(a) & self.first_types(b))
 
     def is_leaf(self, tname):
         return spec_is_leaf(self.nodes[tname])
